@@ -852,4 +852,223 @@ theorem mapInv_call (g : G) (t : Tid) (op : Op) (sc : List Nat) (h : MapInv g) :
   obtain ⟨as, has⟩ := call_is_execAll g t op sc
   rw [has]; exact mapInv_execAll as g h
 
+/-! ## `SegWF`: object ids and descriptor numbers in use are below the allocation counters -/
+
+def ShmNewPC.fd? : ShmNewPC → Option Nat
+  | .fstat fd | .ftrunc fd | .mmap fd | .close fd | .fClose fd _ => some fd
+  | _ => none
+
+structure SegWF (g : G) : Prop where
+  names : ∀ k s, g.os.shmNames k = some s → s < g.os.nextSeg
+  fdsSeg : ∀ p x, x ∈ (g.os.procs p).fds → x.2 < g.os.nextSeg
+  flightFd : ∀ t hid st fd, g.calls t = some (.shmNew hid st) → st.pc.fd? = some fd → fd < (g.os.procs (g.pidOf t)).nextFd
+
+theorem sysStep_oswf (p : Pid) (i : Bool) (c : Sys) (os : OS)
+    (hn : ∀ k s, os.shmNames k = some s → s < os.nextSeg) (hf : ∀ q x, x ∈ (os.procs q).fds → x.2 < os.nextSeg) :
+    (∀ k s, (sysStep p i c os).1.shmNames k = some s → s < (sysStep p i c os).1.nextSeg) ∧
+    (∀ q x, x ∈ ((sysStep p i c os).1.procs q).fds → x.2 < (sysStep p i c os).1.nextSeg) := by
+  cases c with
+  | mmap fd len prot fl =>
+    rcases sysStep_mmap p i fd len prot fl os with ⟨e, he⟩ | ⟨sg, _, _, _, _, _, hfds, _, hq, _, hnm, hns⟩
+    · rw [he]; exact ⟨hn, hf⟩
+    · refine ⟨?_, ?_⟩
+      · intro k s hk; rw [hnm] at hk; rw [hns]; exact hn k s hk
+      · intro q x hx
+        rw [hns]
+        by_cases e : q = p
+        · subst e; rw [hfds] at hx; exact hf q x hx
+        · rw [hq q e] at hx; exact hf q x hx
+  | munmap a len =>
+    by_cases h0 : len = 0
+    · have : sysStep p i (.munmap a len) os = (os, .err .EINVAL) := by simp [sysStep, Sys.interruptible, h0]
+      rw [this]; exact ⟨hn, hf⟩
+    · obtain ⟨hp, hq, _, hnm, hns⟩ := sysStep_munmap p i a len os h0
+      refine ⟨?_, ?_⟩
+      · intro k s hk; rw [hnm] at hk; rw [hns]; exact hn k s hk
+      · intro q x hx
+        rw [hns]
+        by_cases e : q = p
+        · subst e; rw [hp] at hx; simp only [munmapF] at hx; exact hf q x hx
+        · rw [hq q e] at hx; exact hf q x hx
+  | shmOpen k fl m =>
+    unfold sysStep
+    split
+    · exact ⟨hn, hf⟩
+    · simp only [shmOpenF, OS.setProc]
+      cases hk : os.shmNames k with
+      | some s0 =>
+        have hs0 := hn k s0 hk
+        simp only
+        split
+        · exact ⟨hn, hf⟩
+        · refine ⟨hn, ?_⟩
+          intro q x hx
+          by_cases e : q = p
+          · subst e
+            simp only [if_true, List.mem_cons] at hx
+            rcases hx with rfl | hx
+            · exact hs0
+            · exact hf q x hx
+          · simp only [e, if_false] at hx; exact hf q x hx
+      | none =>
+        simp only
+        split
+        · refine ⟨?_, ?_⟩
+          · intro k' s' hk'
+            simp only at hk'
+            split at hk'
+            · simp only [Option.some.injEq] at hk'; rw [← hk']; exact Nat.lt_succ_self _
+            · exact Nat.lt_succ_of_lt (hn k' s' hk')
+          · intro q x hx
+            show x.2 < os.nextSeg + 1
+            by_cases e : q = p
+            · subst e
+              simp only [if_true, List.mem_cons] at hx
+              rcases hx with rfl | hx
+              · exact Nat.lt_succ_self _
+              · exact Nat.lt_succ_of_lt (hf q x hx)
+            · simp only [e, if_false] at hx; exact Nat.lt_succ_of_lt (hf q x hx)
+        · exact ⟨hn, hf⟩
+  | shmUnlink k =>
+    unfold sysStep
+    split
+    · exact ⟨hn, hf⟩
+    · simp only
+      split
+      · refine ⟨?_, hf⟩
+        intro k' s' hk'
+        simp only at hk'
+        split at hk'
+        · cases hk'
+        · exact hn k' s' hk'
+      · exact ⟨hn, hf⟩
+  | close fd =>
+    unfold sysStep
+    split
+    · exact ⟨hn, hf⟩
+    · simp only [OS.setProc]
+      split
+      · refine ⟨hn, ?_⟩
+        intro q x hx
+        by_cases e : q = p
+        · subst e
+          simp only [if_true] at hx
+          exact hf q x (List.mem_filter.mp hx).1
+        · simp only [e, if_false] at hx; exact hf q x hx
+      · exact ⟨hn, hf⟩
+  | semOpen k fl m v => unfold sysStep; simp only [semOpenF]; (repeat' split) <;> exact ⟨hn, hf⟩
+  | _ =>
+    unfold sysStep
+    simp only [OS.setProc]
+    all_goals ((repeat' split) <;> exact ⟨hn, hf⟩)
+
+/-- a `p_shm_new` step keeps its descriptor or gets the next one -/
+theorem shmNew_fd_after (st st' : ShmNewSt) (r : Res) (fd' : Nat) (h : st.after r = .cont st') (hfd : st'.pc.fd? = some fd') :
+    st.pc.fd? = some fd' ∨ ((st.pc = .excl ∨ st.pc = .open) ∧ r = .ok fd') := by
+  obtain ⟨key, req, ro, created, isExists, size, addr, pc⟩ := st
+  cases pc with
+  | sem s0 =>
+    simp only [ShmNewSt.after] at h
+    split at h
+    · simp only [Out.cont.injEq] at h; subst h; simp [ShmNewPC.fd?] at hfd
+    · simp at h
+    · simp only [ShmNewSt.cleanFrom] at h
+      (repeat' split at h) <;> simp only [Out.cont.injEq, reduceCtorEq] at h <;> subst h <;> simp [ShmNewPC.fd?] at hfd
+  | _ =>
+    rcases r with v | e | _ <;> (try cases e) <;>
+      simp only [ShmNewSt.after, ShmNewSt.cleanFrom, shmOpen1Retry, shmOpen2Retry, shmFtruncateCreatorOnly, if_true, Out.cont.injEq, reduceCtorEq] at h <;>
+      (try (repeat' split at h)) <;> (try simp only [Out.cont.injEq, reduceCtorEq] at h) <;> (try subst h) <;>
+      simp_all [ShmNewPC.fd?]
+
+theorem sysStep_shmOpen_ok_fd (p : Pid) (i : Bool) (k : ShmKey) (fl m : Nat) (os : OS) (fd : Nat)
+    (h : (sysStep p i (.shmOpen k fl m) os).2 = .ok fd) : fd < ((sysStep p i (.shmOpen k fl m) os).1.procs p).nextFd := by
+  unfold sysStep at h ⊢
+  split at h
+  · simp at h
+  · rename_i hi
+    simp only [hi, if_false]
+    simp only [shmOpenF, OS.setProc] at h ⊢
+    (repeat' split at h) <;> (repeat' split) <;> simp_all <;> omega
+
+theorem segWF_exec (g : G) (a : Action) (h : SegWF g) : SegWF (exec g a) := by
+  cases a with
+  | start t op =>
+    simp only [exec]
+    have hp := start_procs g t op
+    refine ⟨?_, ?_, ?_⟩
+    · intro k s hk; rw [start_shmNames] at hk; rw [(start_seg_len g t op 0).2]; exact h.names k s hk
+    · intro p x hx; rw [hp] at hx; rw [(start_seg_len g t op 0).2]; exact h.fdsSeg p x hx
+    · intro t' hid st fd hc hfd
+      rw [hp, start_pidOf]
+      by_cases e : t' = t
+      · subst e
+        rcases start_calls_shmNew g t' op hid st hc with h0 | ⟨hpc, _⟩
+        · exact h.flightFd t' hid st fd h0 hfd
+        · rw [hpc] at hfd; simp [ShmNewPC.fd?] at hfd
+      · rw [start_calls_other g t op t' e] at hc; exact h.flightFd t' hid st fd hc hfd
+  | kill p =>
+    simp only [exec]
+    refine ⟨h.names, ?_, ?_⟩
+    · intro q x hx
+      by_cases e : q = p
+      · subst e; simp [G.kill, OS.kill, OS.setProc] at hx
+      · simp only [G.kill, OS.kill, OS.setProc, e, if_false] at hx; exact h.fdsSeg q x hx
+    · intro t hid st fd hc hfd
+      simp only [G.kill] at hc
+      split at hc
+      · cases hc
+      · rename_i hne
+        have := h.flightFd t hid st fd hc hfd
+        show fd < ((g.kill p).os.procs (g.pidOf t)).nextFd
+        simpa [G.kill, OS.kill, OS.setProc, hne] using this
+  | step t i =>
+    simp only [exec]
+    cases hc : g.calls t with
+    | none => rw [step_none g t i hc]; exact h
+    | some c =>
+      have hos := step_os g t i c hc
+      have hw := sysStep_oswf (g.pidOf t) i c.next g.os h.names h.fdsSeg
+      refine ⟨by rw [hos]; exact hw.1, by rw [hos]; exact hw.2, ?_⟩
+      intro t' hid' st' fd' hc' hfd'
+      rw [step_pidOf]
+      by_cases e : t' = t
+      · subst e
+        rw [step_calls_self g t' i c hc] at hc'
+        split at hc'
+        · rename_i c' hcont
+          simp only [Option.some.injEq] at hc'
+          subst hc'
+          cases c with
+          | shmNew hid st =>
+            obtain ⟨st'', e', ha⟩ := call_after_cont_shmNew hid st _ _ hcont
+            simp only [Call.shmNew.injEq] at e'
+            obtain ⟨_, rfl⟩ := e'
+            rcases shmNew_fd_after st st' _ fd' ha hfd' with h0 | ⟨hpc, hr⟩
+            · exact Nat.lt_of_lt_of_le (h.flightFd t' hid st fd' hc h0) (nextFd_step g t' i _)
+            · rw [hos]
+              simp only [Call.next] at hr ⊢
+              have hnext : ∃ fl m, st.next = .shmOpen st.key fl m := by
+                obtain ⟨key, req, ro, created, isExists, size, addr, pc⟩ := st
+                rcases hpc with hpc | hpc <;> simp only at hpc <;> subst hpc <;> exact ⟨_, _, rfl⟩
+              obtain ⟨fl, m, hn⟩ := hnext
+              rw [hn] at hr ⊢
+              exact sysStep_shmOpen_ok_fd _ _ _ _ _ _ _ hr
+          | _ => exact absurd rfl (call_after_cont_not_shmNew _ _ _ hcont (by intro a b; simp) hid' st')
+        · cases hc'
+      · rw [step_calls_other g t i t' e] at hc'
+        exact Nat.lt_of_lt_of_le (h.flightFd t' hid' st' fd' hc' hfd') (nextFd_step g t i _)
+
+theorem segWF_execAll (as : List Action) : ∀ g, SegWF g → SegWF (execAll g as) := by
+  induction as with
+  | nil => intro g h; exact h
+  | cons a as ih => intro g h; simp only [execAll, List.foldl_cons]; exact ih _ (segWF_exec g a h)
+
+theorem segWF_init (pidOf : Tid → Pid) : SegWF (G.init pidOf) :=
+  ⟨by intro k s h; simp [G.init, OS.init] at h, by intro p x h; simp [G.init, OS.init] at h,
+   by intro t hid st fd h; simp [G.init] at h⟩
+
+theorem segWF_call (g : G) (t : Tid) (op : Op) (sc : List Nat) (h : SegWF g) : SegWF (g.call t op sc) := by
+  obtain ⟨as, has⟩ := call_is_execAll g t op sc
+  rw [has]; exact segWF_execAll as g h
+
 end PV.IPC
